@@ -9,6 +9,7 @@ import (
 	"strconv"
 	"strings"
 	"time"
+	"unicode/utf8"
 
 	"github.com/relex/gotils/logger"
 	"github.com/relex/slog-agent/base"
@@ -160,6 +161,12 @@ func (parser *syslogParser) Parse(input []byte, timestamp time.Time) *base.LogRe
 		}
 		locator.Set(fields, val)
 		remaining = next
+	}
+
+	// header fields become metric labels, tags and directory names: they must be valid UTF-8 (RFC 5424: PRINTUSASCII)
+	if !utf8.Valid(input[:len(input)-len(remaining)]) {
+		parser.onMalformed(record, "invalid UTF-8 in syslog header", input)
+		return nil
 	}
 
 	// a record that is still longer than InputLogMaxRecordBytes once its message is cut to InputLogMaxMessageBytes has an
